@@ -166,10 +166,10 @@ func TestAddressFormulas(t *testing.T) {
 
 func TestLegacyValidity(t *testing.T) {
 	r := ev.New(t, prop, "TestLegacyValidity")
-	r.Rule("legacy 39-byte addresses: derived from public keys and then EVERY single-bit flip of the 39 bytes; random 35-byte prefixes completed with the correct checksum (format nibble 0 and 1..15); random 39-byte strings; checksum with 1..3 correct bytes; oracle IsValidLegacyXMSSAddress(a) <=> (format nibble 0 and a[35:39] == SHA256(a[0:35])[28:32]); non-trivial = an address that is invalid for a single reason (one flipped bit, wrong format with right checksum, checksum partially right), distinct by content")
+	r.Rule("legacy 39-byte addresses: derived from public keys and then EVERY single-bit flip of the 39 bytes; random 35-byte prefixes completed with the correct checksum (format nibble 0 and 1..15); random 39-byte strings; checksum with 1..3 correct bytes; four bytes taken from another window of the right digest or from a related digest; oracle IsValidLegacyXMSSAddress(a) <=> (format nibble 0 and a[35:39] == SHA256(a[0:35])[28:32]); non-trivial = an address that is invalid for a single reason (one flipped bit, wrong format with right checksum, checksum partially right), distinct by content")
 	checks := r.PerShard(r.Pick(3000, 120000))
 	r.Rapid(t, "legacy", checks, func(rt *rapid.T) {
-		kind := rapid.SampledFrom([]string{"derived-all-flips", "prefix-right-checksum", "prefix-wrong-format", "random", "partial-checksum"}).Draw(rt, "kind")
+		kind := rapid.SampledFrom([]string{"derived-all-flips", "prefix-right-checksum", "prefix-wrong-format", "random", "partial-checksum", "checksum-from-another-window", "checksum-from-another-window"}).Draw(rt, "kind")
 		mk := func(prefix []byte) []byte {
 			s := sha256.Sum256(prefix[:35])
 			return append(append([]byte{}, prefix[:35]...), s[28:]...)
@@ -204,6 +204,34 @@ func TestLegacyValidity(t *testing.T) {
 			case "prefix-wrong-format":
 				b[1] = b[1]&0x0f | byte(rapid.IntRange(1, 15).Draw(rt, "af"))<<4
 				b = mk(b)
+			case "checksum-from-another-window":
+				// four bytes of the RIGHT digest, taken from the wrong place (the first four as in Base58Check, any other
+				// window, byte-reversed tail) or the tail of a related digest (of the first 34 / all 39 bytes, double SHA-256)
+				b[1] &= 0x0f
+				d := sha256.Sum256(b[:35])
+				var cs []byte
+				switch rapid.IntRange(0, 5).Draw(rt, "how") {
+				case 0:
+					cs = d[0:4]
+				case 1:
+					k := rapid.IntRange(1, 27).Draw(rt, "window")
+					cs = d[k : k+4]
+				case 2:
+					cs = []byte{d[31], d[30], d[29], d[28]}
+				case 3:
+					e := sha256.Sum256(b[:34])
+					cs = e[28:]
+				case 4:
+					e := sha256.Sum256(d[:])
+					cs = e[28:]
+				default:
+					e := sha256.Sum256(b[3:35])
+					cs = e[28:]
+				}
+				copy(b[35:], cs)
+				if bytes.Equal(b[35:39], d[28:]) {
+					b[38] ^= 1 // (2^-32) the wrong window happens to hold the right bytes
+				}
 			case "partial-checksum":
 				b[1] &= 0x0f
 				good := mk(b)
